@@ -78,6 +78,21 @@
 (*                         separators although ws = FALSE was asked)       *)
 (*                         -> <<10, 9>>: a blank continuation line splits; *)
 (*                            the condition in the statement is needed.    *)
+(*   StrictDroppedInGpgClasses = TRUE (seeded change E: the gpg-aware      *)
+(*                         classes use strict for their pre-pass but do    *)
+(*                         not forward it to the field parser)             *)
+(*                         -> <<10, 9>> in a non-last field truncates      *)
+(*   PosStrictMissedByPrepass = TRUE (the pre-pass looks for strict among  *)
+(*                         the keyword arguments only; found by this check *)
+(*                         in the code, repaired in /repo 2236619)         *)
+(*                         -> <<10, 9>> with strict passed positionally    *)
+(* The read-back has a class / constructor dimension (Ways): Deb822 /      *)
+(* Release / PdiffIndex parse the lines directly; Dsc / Changes / BuildInfo *)
+(* first cut ONE paragraph out of list / file input with a pre-pass        *)
+(* (split_gpg_and_payload without comment skipping) and parse its payload; *)
+(* Cls(x, strict) reads one paragraph, Cls.iter_paragraphs(x, strict)      *)
+(* builds objects from the shared line iterator until one is empty.  Sound *)
+(* covers all of them for values up to GpgLen.                             *)
 (* Not modelled: the PGP armor state machine (an armor line gives st =     *)
 (* "pgp"; ReaderTotal shows it is unreachable from accepted values), the   *)
 (* fields= filter, apt_pkg, encodings other than UTF-8, Unicode case       *)
